@@ -178,6 +178,7 @@ fn inner(name: &str, a: &[String]) -> String {
                 _ => Epoch::from_qzsst_nanoseconds(n),
             })
         }
+        "is_leap_year" => format!("{}", crate::epoch::verif_is_leap_year(p(&a[0]))),
         "is_gregorian_valid" => format!("{}", crate::is_gregorian_valid(p(&a[0]), p(&a[1]), p(&a[2]), p(&a[3]), p(&a[4]), p(&a[5]), p(&a[6]))),
         "maybe_from_gregorian" => match Epoch::maybe_from_gregorian(p(&a[0]), p(&a[1]), p(&a[2]), p(&a[3]), p(&a[4]), p(&a[5]), p(&a[6]), scale(&a[7])) {
             Ok(x) => format!("Ok {}", e(x)),
